@@ -192,7 +192,7 @@ def conc_case(readers, asserters, iters):
 def gen(rng, tier):
     out = []
     if tier == "quick":
-        for i in range(36):
+        for i in range(72):
             out.append(rand_case(rng, rng.range(8, 22), ["mix", "ns", "ids"][i % 3]))
         return out
     if tier == "search":
